@@ -284,6 +284,18 @@ func (o *authorityOracle) Leg(c *explore.Ctx, leg *world.Leg) {
 			c.Report(p, "role-effect", leg.Func+":stored-list", fmt.Sprintf("%s(%q, %q) on %s turned the role list %q into %q, expected %q", leg.Func, tok, in.Arguments[1:], uni.Name(in.RecipientAddr), before, after, want))
 		}
 	}
+	// hand-over, first half: afterwards the old holder no longer holds the create role (whatever
+	// its counter was), and a local new holder does
+	if leg.Func == vmcommon.BuiltInFunctionESDTNFTCreateRoleTransfer && sys && len(in.Arguments) == 2 && !bytes.Equal(in.Arguments[1], in.RecipientAddr) {
+		tok := string(in.Arguments[0])
+		if spec.HasRole(leg.Post.Get(in.RecipientAddr), tok, vmcommon.ESDTRoleNFTCreate) {
+			c.Report(p, "role-effect", "ESDTNFTCreateRoleTransfer:old-holder-keeps-role", fmt.Sprintf("after the hand-over of %q to %s the old holder %s still holds the create role", tok, uni.Name(in.Arguments[1]), uni.Name(in.RecipientAddr)))
+		}
+		if len(in.Arguments[1]) == 32 && leg.Pre.ShardOf(in.Arguments[1]) == leg.Shard && !spec.HasRole(leg.Post.Get(in.Arguments[1]), tok, vmcommon.ESDTRoleNFTCreate) {
+			c.Report(p, "role-effect", "ESDTNFTCreateRoleTransfer:new-holder-without-role", fmt.Sprintf("after the same-shard hand-over of %q the new holder %s does not hold the create role", tok, uni.Name(in.Arguments[1])))
+		}
+		c.Class("handover-role-effect-checked")
+	}
 	if leg.Func == vmcommon.BuiltInFunctionESDTWipe && !sys {
 		c.Report(p, "system-only", "ESDTWipe:non-system-caller", fmt.Sprintf("ESDTWipe by %s succeeded", uni.Name(in.CallerAddr)))
 	}
